@@ -262,11 +262,11 @@ PROPS["C11"] = {
     "timeout": 7200,
     "trusted_base": [
         KERNEL, HARNESS,
-        "statements in lean/Ogen/Props/C11.lean; the models of C12 (path keys), C07 (reference resolution) and C16 (JSON Pointer) with their own ties (the suites of those properties; this check re-runs none of them)",
+        "statements in lean/Ogen/Props/C11.lean; the models of C12 (path keys), C07 (reference resolution) and C16 (JSON Pointer) with their own ties (the suites of those properties; this check re-runs none of them); model DocLines (ir.splitLine, the doc-comment line breaker: byte-level, ASCII white space) hand-written from gen/ir/description.go, tied through the hook ir.VerifSplitLine on all texts of up to 6 (8) symbols over a five-symbol alphabet at limits 2/3/4/6, description shapes at limit 100 and random texts, under a watchdog",
         "NOT modelled and decided on the implementation only: every other part of parser and generator, bounded time/memory, the line:column clause beyond the scenarios named below. The mutation sweep (single-fault structural mutations of corpus specs, truncations, random bytes, 100- and 1000-deep nesting) runs ogen.Parse + gen.NewGenerator + WriteSource in memory under recover and a 30 s watchdog, in child processes of the harness (a Go fatal error such as a stack overflow cannot be recovered: the child dies, the document gets the outcome `fatal`, a new child is started); further streams: random oneOf/anyOf/allOf graphs with inline hops, `$ref`s one past the end of an array, located-diagnostic scenarios over two files (the position an error names must lie inside the file it names, at the faulty node)",
     ],
     "assumptions": ["a hung generation is detected by a watchdog, not interrupted"],
-    "level_text": "partial (modelled components only): path_key_total, ref_cycles_error, ref_depth_error, pointer_total are Lean theorems (totality is also built into the definitions: Lean accepts only terminating functions, Go panics are explicit outcomes). Totality of the rest of the generator is a mutation sweep over the corpus on every run, not a theorem.",
+    "level_text": "partial (modelled components only): path_key_total, ref_cycles_error, ref_depth_error, pointer_total, doc_split_total / doc_split_keeps_text / doc_split_line_bound (the doc-comment line breaker: terminates on every input, drops nothing but white space, bounds cut lines) are Lean theorems (totality is also built into the definitions: Lean accepts only terminating functions, Go panics are explicit outcomes). Totality of the rest of the generator is a mutation sweep over the corpus on every run, not a theorem.",
     "level_note": "trusted: Lean kernel, statements, the component models and their ties (C12, C07, C16 checks), the mutation sweep harness.",
     "technique": "Lean 4 totality theorems for the modelled components (explicit panic outcome / structural termination); single-fault mutation sweep of corpus specs through the real parser and generator under recover + watchdog",
 }
@@ -314,5 +314,5 @@ for _p in ["C01", "C02", "C03", "C04", "C05", "C06", "C07", "C08", "C09", "C11",
     if _p not in PROPS:
         NOT_CLAIMED[_p] = "not claimed yet: machinery under construction (theorems exist in lean/Ogen, the tie to /repo is not finished)"
 
-HOOK_COMMITS = ["8a1dd2e74a0b79a9e824b1b1ebee79bbac4dec2d", "0932b764a1d9512d33b0edbdb0df4d17b735f038", "ef3ea3473b26c332debe40e97892594d565639bc", "aee233eac6b9663d90022f009f68c7808e867606"]
+HOOK_COMMITS = ["8a1dd2e74a0b79a9e824b1b1ebee79bbac4dec2d", "0932b764a1d9512d33b0edbdb0df4d17b735f038", "ef3ea3473b26c332debe40e97892594d565639bc", "aee233eac6b9663d90022f009f68c7808e867606", "7e96f1649686c29e7dfd0604b7e07018df5f9b9f"]
 
